@@ -74,3 +74,42 @@ def execute(files, argv, stdin_bytes=None, dirs=(), env=None, keep_contents=True
     return {"argv": list(argv), "code": res.code, "exc": res.exc, "out": res.out, "err": res.err, "events": res.events,
             "left": left, "changed": changed, "deleted": deleted, "created": created,
             "names": [n for n, _ in files], "contents": contents}
+
+
+def execute_subprocess(files, argv, timeout=120, env=None):
+    """Like execute(), but `python -m pymarkdown` runs in a child process (no in-process state shared between runs:
+    needed wherever process-global state such as logging configuration is part of what is varied).  No probe events."""
+    import subprocess
+    work = tempfile.mkdtemp(prefix="vhp-", dir="/dev/shm" if os.path.isdir("/dev/shm") else None)
+    tmpd = os.path.join(work, "_tmp")
+    os.mkdir(tmpd)
+    for n, data in files:
+        p = os.path.join(work, n)
+        os.makedirs(os.path.dirname(p), exist_ok=True)
+        with open(p, "wb") as f:
+            f.write(data)
+    before = snapshot(work)
+    e = dict(os.environ)
+    e.update({"PYTHONPATH": impl.REPO, "TMPDIR": tmpd, "PYMARKDOWN_VERIF": "0"})
+    e.update(env or {})
+    try:
+        p = subprocess.run([sys.executable, "-m", "pymarkdown"] + list(argv), cwd=work, env=e, capture_output=True, text=True, timeout=timeout)
+        code, out, err, exc = p.returncode, p.stdout, p.stderr, None
+    except subprocess.TimeoutExpired:
+        code, out, err, exc = None, "", "", "Timeout"
+    after = snapshot(work)
+    pre = "_tmp" + os.sep
+    contents = {}
+    for n, _ in files:
+        fp = os.path.join(work, n)
+        if os.path.exists(fp):
+            with open(fp, "rb") as f:
+                contents[n] = f.read()
+    res = {"argv": list(argv), "code": code, "exc": exc, "out": out, "err": err, "events": [],
+           "left": sorted(k for k in after if k.startswith(pre)),
+           "changed": sorted(k for k in before if k in after and after[k] != before[k]),
+           "deleted": sorted(k for k in before if k not in after),
+           "created": sorted(k for k in after if k not in before and not k.startswith(pre)),
+           "names": [n for n, _ in files], "contents": contents}
+    shutil.rmtree(work, ignore_errors=True)
+    return res
